@@ -14,7 +14,7 @@ FUNCTIONS = [("pandapower.protection.protection_devices.ocrelay", "OCRelay.prote
 STUBS = ["(i/I_s)**0.02 (standard inverse): uninterpreted strictly increasing function with pow(1)=1, congruence between applications",
          "fuse melting characteristic: uninterpreted non-negative non-increasing function of the current (contract of monotone characteristic data); "
          "its interpolation numerics are C32's subject",
-         "devices are built with object.__new__ and the attributes protection_function reads; net.res_switch_sc / res_switch are one-row frames"]
+         "devices are built with object.__new__ and the attributes protection_function reads; net.res_switch_sc / res_switch are one-row frames, res_line / res_line_sc one-row frames with different currents"]
 ASSUMPTIONS = ["consistently graded settings: 0 < I_s <= I_g <= I_gg, 0 <= t_gg <= t_g, tms > 0, t_grade >= 0, and for IDTOC t_g <= IDMT time at I_g",
                "two currents 0 < i1 <= i2 seen by the same device (2-safety)"]
 OUTSIDE = ["automatic time_grading (graph search over line paths; the manual DataFrame path is covered)", "pick-up current derivation in OCRelay.__init__", "plotting"]
@@ -41,6 +41,10 @@ def _net(ctx, i):
     net = type("N", (), {})()
     net.res_switch_sc = pd.DataFrame({"ikss_ka": ctx.series([i])})
     net.res_switch = pd.DataFrame({"i_ka": ctx.series([i * 0.5])})
+    # the neighbouring tables a device could read by mistake carry different currents (an open switch sees none of its line's current)
+    net.switch = pd.DataFrame({"bus": [0], "element": [0], "et": ["l"], "closed": [True]})
+    net.res_line = pd.DataFrame({"i_ka": ctx.series([i * 0.3]), "i_from_ka": ctx.series([i * 0.3]), "i_to_ka": ctx.series([i * 0.29])})
+    net.res_line_sc = pd.DataFrame({"ikss_ka": ctx.series([i * 0.7])})
     return net
 
 
